@@ -13,7 +13,7 @@ EXTENDS Integers, Sequences, FiniteSets, TLC, Json, CSV, IOUtils
 CONSTANT MaxDepth
 
 Kinds  == {"throw", "div", "builtin", "nargs", "index", "notcallable", "forin", "slice", "selector", "setindex", "setselector", "constuse", "constcall", "foldmixed", "foldcall"}
-Styles == {"stmt", "assign", "retplus", "closure", "recur", "module", "method", "bare", "baremod", "inblock", "tryfin", "mutual",
+Styles == {"stmt", "assign", "retplus", "closure", "recur", "module", "method", "bare", "baremod", "inblock", "tryfin", "mutual", "recur2",
            "ifcond", "forcond", "ternary", "argument", "index"}
 Blanks == {0, 1, 3}
 
@@ -83,6 +83,14 @@ Mutual(m, kind) ==
                L("assignfn", "b", "n"), L("callrecassign", "a", "n"), L("retx", "", ""), L("close", "", ""), L("callrecmain", "a", ToString(2 * m))>>,
    trace |-> <<13>> \o [i \in 1..(2 * m) |-> IF i % 2 = 1 THEN 6 ELSE 10] \o <<4>>, file |-> [i \in 1..(2 * m + 2) |-> "main"]]
 
+\* direct recursion through TWO call sites of the same function (odd levels call from one line, even levels from
+\* another), 2 * m levels: consecutive frames of one function differ only in their call position
+Recur2(m, kind) ==
+  [lines |-> <<L("defrec", "r", "n"), L("ifzero", "n", ""), L("fail", kind, ""), L("close", "", ""),
+               L("ifodd", "n", ""), L("callrecassign", "r", "n"), L("retx", "", ""), L("close", "", ""),
+               L("callrecassign", "r", "n"), L("retx", "", ""), L("close", "", ""), L("callrecmain", "r", ToString(2 * m))>>,
+   trace |-> <<12>> \o [i \in 1..(2 * m) |-> IF (2 * m - i + 1) % 2 = 1 THEN 6 ELSE 9] \o <<3>>, file |-> [i \in 1..(2 * m + 2) |-> "main"]]
+
 \* the failing statement (or the call) is the very first token of its file: no header line is rendered
 Bare == [lines |-> <<L("fail", "throw", "")>>, trace |-> <<1>>, file |-> <<"main">>, bare |-> TRUE]
 BareMod == [lines |-> <<L("importstmt", "mod", "")>>, modlines |-> <<L("fail", "throw", "")>>, trace |-> <<1, 1>>, file |-> <<"main", "mod">>, bare |-> TRUE]
@@ -91,6 +99,7 @@ Prog(c) == CASE c.st = "bare" -> Bare [] c.st = "baremod" -> BareMod
              [] c.st = "inblock" -> InBlock(c.d, c.kind)
              [] c.st = "tryfin" -> TryFin(c.d, c.kind)
              [] c.st = "mutual" -> Mutual(c.d, c.kind)
+             [] c.st = "recur2" -> Recur2(c.d, c.kind)
              [] c.st = "closure" -> Closure(c.kind)
              [] c.st = "module" -> Module(c.kind)
              [] OTHER -> Chain(c.d, c.kind, c.st)
@@ -102,7 +111,7 @@ Init == ph = 0 /\ c \in {x \in [d : 0..MaxDepth, kind : Kinds, st : Styles \ {"m
                           /\ (x.st \in {"bare", "baremod"} => (x.d = 0 /\ x.kind = "throw"))
                           /\ (x.st = "recur" => x.d >= 1)
                           /\ (x.st \in {"inblock", "tryfin"} => x.d <= 1)
-                          /\ (x.st = "mutual" => x.d \in 1..2)}
+                          /\ (x.st \in {"mutual", "recur2"} => x.d \in 1..2)}
 Judge == ph = 0 /\ ph' = 1 /\ UNCHANGED c
 Next == Judge
 Spec == Init /\ [][Next]_vars
